@@ -148,7 +148,13 @@ func getCertSetPad(ki, issuerClass int, serial *big.Int, pad int) *certSet {
 	tk := keys.Get(ki + 2)
 	iss := keys.IssuerName(issuerClass, fmt.Sprint(ki))
 	c, err := keys.Mint(k, k, iss, serial, "signer"+strings.Repeat("x", pad))
-	if (ki+pad+int(serial.Int64()&0xff))%3 == 2 {
+	switch sel := (ki*7 + pad*3 + int(serial.Int64()&0xffff)) % 10; sel {
+	case 3: // a CA-profile certificate signs (keyCertSign + cRLSign, no digitalSignature)
+		c, err = keys.MintProfile(&k.Priv.PublicKey, k.Priv, iss, serial, "signer"+strings.Repeat("x", pad), "ca")
+	case 7: // no keyUsage / extendedKeyUsage extensions at all
+		c, err = keys.MintProfile(&k.Priv.PublicKey, k.Priv, iss, serial, "signer"+strings.Repeat("x", pad), "nousage")
+	}
+	if (ki+pad+int(serial.Int64()&0xff))%3 == 2 && err == nil && c.KeyUsage == x509.KeyUsageDigitalSignature {
 		// an RSA leaf issued by a CA of another key type (the certificate's own signature
 		// algorithm is ECDSA; the key that signs blobs is still RSA)
 		c, err = keys.MintVia(&k.Priv.PublicKey, keys.ECCA(), iss, serial, "signer"+strings.Repeat("x", pad))
